@@ -975,6 +975,15 @@ func txnIterHandlerFunc(
 			}
 		}
 
+		// built-in transactions are added by the generator itself: a pool transaction that carries a
+		// built-in function name would make verifiers reject the block for a duplicated built-in txn
+		if mc.isBuildInTxn(txn) {
+			logging.Logger.Error("generate block - pool transaction with a build-in function name",
+				zap.String("txn", txn.Hash), zap.String("function_name", txn.FunctionName))
+			tii.invalidTxns = append(tii.invalidTxns, txn)
+			return true, nil // skipping and continue
+		}
+
 		if tii.cost+cost >= mc.ChainConfig.MaxBlockCost() {
 			logging.Logger.Debug("generate block (too big cost, skipping)")
 			return true, nil
